@@ -102,21 +102,36 @@ def corpus_cases():
 # evaluation
 
 
-def evaluate(cases, procs, deadline):
+def evaluate(cases, pool, deadline):
     recs = []
-    if procs <= 1:
+    if pool is None:
         for c in cases:
             if time.time() > deadline:
                 break
             recs.append(K.eval_case(c))
         return recs
-    with multiprocessing.Pool(procs) as pool:
-        for r in pool.imap(K.eval_case, cases, chunksize=8):
-            recs.append(r)
-            if time.time() > deadline:
-                pool.terminate()
-                break
+    for r in pool.imap(K.eval_case, cases, chunksize=4):
+        recs.append(r)
+        if time.time() > deadline:
+            break
     return recs
+
+
+def run_cases(res, cases, procs, deadline, use_model=True, batch=1000):
+    """evaluate on the real code (worker processes), compare with the model batch by batch (bounded memory)"""
+    pool = multiprocessing.Pool(procs) if procs > 1 else None
+    done = 0
+    try:
+        for b in range(0, len(cases), batch):
+            if time.time() > deadline:
+                break
+            recs = evaluate(cases[b:b + batch], pool, deadline)
+            done += len(recs)
+            model_compare(res, recs, use_model)
+    finally:
+        if pool is not None:
+            pool.terminate()
+    return done
 
 
 def model_compare(res, recs, use_model=True):
@@ -134,7 +149,7 @@ def model_compare(res, recs, use_model=True):
     by_rec = collections.defaultdict(dict)
     for (n, what), o in zip(where, outs):
         by_rec[n][what] = o
-    seen_sig = collections.Counter()
+    seen_sig = res.extra.setdefault('failure_signature_counts', {})
     for n, rec in enumerate(recs):
         case = rec['case']
         res.note_case(_case_key(case), rec.get('nontrivial', False))
@@ -145,7 +160,7 @@ def model_compare(res, recs, use_model=True):
             res.extra.setdefault('harness_errors', []).append(str(rec['harness_error'])[-400:])
         oracle_failed = bool(rec['fails'])
         for sig, detail in rec['fails']:
-            seen_sig[sig] += 1
+            seen_sig[sig] = seen_sig.get(sig, 0) + 1
             if seen_sig[sig] <= 2:
                 res.fail('property', sig, detail, _small_case(case, sig))
         m = by_rec.get(n, {})
@@ -190,7 +205,6 @@ def model_compare(res, recs, use_model=True):
                 problem = ('leg.loaded-vs-model', 'model decodes, implementation raised')
             if problem and not oracle_failed:
                 res.fail('correspondence', problem[0], problem[1][:1500], case)
-    res.extra['failure_signature_counts'] = dict(seen_sig)
 
 
 def _case_key(case):
@@ -273,10 +287,9 @@ def run(ctx):
         procs = 15
     random.Random('order:%d' % ctx.seed).shuffle(rest)  # a deadline cut keeps every stream represented
     cases = corpus_cases() + first + rest
-    recs = evaluate(cases, procs, deadline)
-    model_compare(res, recs)
+    done = run_cases(res, cases, procs, deadline)
     res.extra['cases_planned'] = len(cases)
-    res.extra['cases_run'] = len(recs)
+    res.extra['cases_run'] = done
     res.extra['classes_discovered'] = len(K.classes())
     res.extra['classes_exercised'] = len([k for k in res.hist if k.startswith('class.')])
     res.extra['classes_without_instance'] = sorted(k.split(':', 1)[1] for k in res.hist if k.startswith('zoo.no-instance:'))
@@ -292,8 +305,7 @@ def search(ctx, reasons):
                              n_linalg=300 if ctx.quick else 5000, zoo_seeds=[ctx.seed + 1], zoo_all=True)
     random.Random('search:%d' % ctx.seed).shuffle(rest)
     cases = corpus_cases() + first + rest
-    recs = evaluate(cases, 12, time.time() + (30 if ctx.quick else 600))
-    model_compare(res, recs, use_model=False)
+    run_cases(res, cases, 12, time.time() + (30 if ctx.quick else 600), use_model=False)
     return res
 
 
